@@ -4,7 +4,7 @@ CONSTANTS
   MaxC = 2
   Kinds = {"axfr", "ixfr1", "fallback", "uptodate"}
   MaxMsgs = 3
-  FaultKinds = {"none", "drop", "dup", "swap", "trunc", "hdr", "wrongq"}
+  FaultKinds = {"none", "drop", "dup", "swap", "trunc", "hdr", "wrongq", "csoa"}
   LaterQ = {TRUE, FALSE}
 SPECIFICATION GenSpec
 INVARIANT EmitCase
